@@ -55,6 +55,15 @@ def run(tier, seed):
                           got, printed = ("error",), None
                       except Exception as e:  # noqa: BLE001
                           got, printed = ("escape", type(e).__name__), None
+                      # the string entry point of the base pointer, judged on its own (also when the other one refuses)
+                      try:
+                          via2 = ("ok", [str(p) for p in bp.to(text, unicode_escape=False).parts])
+                      except (RelativeJSONPointerError, JSONPointerError):
+                          via2 = ("error",)
+                      except Exception as e:  # noqa: BLE001
+                          via2 = ("escape", type(e).__name__)
+                      if got[0] in ("ok", "error") and via2[0] != got[0]:
+                          got = ("entry points differ", got, via2)
                       if want[0] == "ok" and want[1] is None:
                           rec.ok()  # offset on a non-index token: unconstrained
                           continue
